@@ -76,6 +76,123 @@ pub struct Case {
     pub forges: Vec<Forge>,
     pub ticks: u16,
     pub dt_us: u32,
+    /// when present, a dedicated history runs instead: one address connects, closes, and connects again
+    #[serde(default)]
+    pub reconnect: Option<Reconnect>,
+}
+
+/// One address, two connections in a row: the first is closed gracefully (by either side); the server application
+/// tidies up in its Disconnect handler (`Server::drop(addr)` of the lingering entry) or leaves the entry alone; the
+/// client program starts again from the same local address `gap_ms` later; the first `lost` datagrams of the second
+/// handshake are lost in the given direction; then both applications exchange a small Reliable packet every second
+/// for 26 s on a loss-free link - beyond every timer the first connection may have left behind.
+#[derive(Clone, Debug, Serialize, Deserialize)]
+pub struct Reconnect {
+    pub closed_by_client: bool,
+    pub app_drops_closed_entry: bool,
+    pub gap_ms: u32,
+    pub lost: u8,
+    pub lost_to_server: bool,
+    pub latency_us: u32,
+    pub step_us: u32,
+}
+
+fn run_reconnect(c: &Case, r: &Reconnect) -> CaseResult {
+    let mut classes: Vec<&'static str> = vec!["reconnect_history"];
+    let scfg = ServerCfg { handshake_errors: c.server.handshake_errors, ..ServerCfg::default() };
+    let ccfg = EpCfg::default();
+    let mut w = World::new(c.seed, &scfg);
+    let lat = r.latency_us.min(100_000);
+    let step = r.step_us.clamp(1_000, 50_000) as u64;
+    let first = w.add_client(&ccfg, LinkState { latency_us: [lat, lat], ..LinkState::default() });
+    let addr = w.clients[first].addr;
+    let mut dropped_by_app = false;
+    let mut tick = |w: &mut World, ci: usize, dropped_by_app: &mut bool, may_drop: bool| {
+        w.advance(step);
+        let evs = w.step_server();
+        if may_drop && evs.iter().any(|e| matches!(e, SEv::Disconnect(a) if *a == addr)) && w.server_has_client(&addr) {
+            // the application's Disconnect handler forgets the peer
+            if let Some(server) = w.server.as_mut() {
+                server.drop(&addr);
+            }
+            *dropped_by_app = true;
+        }
+        w.step_client(ci);
+    };
+    // first connection: connect, one packet each way, graceful close
+    for _ in 0..(2_000_000 / step).max(40) {
+        tick(&mut w, first, &mut dropped_by_app, false);
+    }
+    if !w.server_client_active(&addr) {
+        return CaseResult::ok(false, classes);
+    }
+    w.client_send(first, world_payload(c.seed, 1, 0, 40), 0, 3);
+    w.server_send(first, world_payload(c.seed, 2, 0, 40), 0, 3);
+    for _ in 0..(1_000_000 / step).max(20) {
+        tick(&mut w, first, &mut dropped_by_app, false);
+    }
+    if r.closed_by_client {
+        if let Some(cl) = w.clients[first].client.as_mut() {
+            cl.disconnect();
+        }
+    } else if let Some(server) = w.server.as_ref() {
+        if let Some(rc) = server.client(&addr) {
+            rc.borrow_mut().disconnect();
+        }
+    }
+    for _ in 0..(1_000_000 / step).max(20) {
+        tick(&mut w, first, &mut dropped_by_app, r.app_drops_closed_entry);
+    }
+    let closed = w.server_events.iter().any(|e| matches!(e.2, SEv::Disconnect(a) if a == addr)) && w.clients[first].events.iter().any(|e| matches!(e.2, CEv::Disconnect));
+    if !closed {
+        return CaseResult::ok(false, classes);
+    }
+    let t_closed = w.now_us;
+    // an entry the application left alone lingers for 20 s and ignores connection requests meanwhile: wait it out then
+    let gap_ms = if dropped_by_app { r.gap_ms % 19_000 } else { 21_000 + r.gap_ms % 5_000 } as u64;
+    let t_again = w.now_us + gap_ms * 1000;
+    while w.now_us < t_again {
+        tick(&mut w, first, &mut dropped_by_app, false);
+    }
+    classes.push(if dropped_by_app { "closed_entry_dropped_by_the_application" } else { "closed_entry_left_to_linger" });
+    // second connection from the same address
+    let mut link = LinkState { latency_us: [lat, lat], ..LinkState::default() };
+    link.fates[if r.lost_to_server { 0 } else { 1 }] = (0..r.lost.min(3)).map(|_| Fate::Drop).collect();
+    let second = w.reincarnate_client(first, &ccfg, link);
+    let n_connects_before = w.server_events.iter().filter(|e| matches!(e.2, SEv::Connect(a) if a == addr)).count();
+    let mut sent = [0u32; 2];
+    let mut next_send = w.now_us + 8_000_000;
+    let t_end = w.now_us + 8_000_000 + 26_000_000;
+    while w.now_us < t_end {
+        tick(&mut w, second, &mut dropped_by_app, false);
+        if w.now_us >= next_send {
+            next_send += 1_000_000;
+            w.client_send(second, world_payload(c.seed, 3, sent[0], 30), 1, 3);
+            sent[0] += 1;
+            if w.server_send(second, world_payload(c.seed, 4, sent[1], 30), 1, 3) {
+                sent[1] += 1;
+            }
+        }
+    }
+    for _ in 0..(2_000_000 / step).max(40) {
+        tick(&mut w, second, &mut dropped_by_app, false);
+    }
+    let c_events: Vec<String> = w.clients[second].events.iter().filter(|e| !matches!(e.2, CEv::Receive(_))).map(|e| format!("{:?}@{}", e.2, e.1)).collect();
+    let s_events: Vec<String> = w.server_events.iter().filter(|e| e.1 > t_closed && !matches!(e.2, SEv::Receive(..))).map(|e| format!("{:?}@{}", e.2, e.1)).collect();
+    let c_connects = w.clients[second].events.iter().filter(|e| matches!(e.2, CEv::Connect)).count();
+    let s_connects = w.server_events.iter().filter(|e| matches!(e.2, SEv::Connect(a) if a == addr)).count() - n_connects_before;
+    let c_term = w.clients[second].events.iter().any(|e| matches!(e.2, CEv::Disconnect | CEv::Error(_)));
+    let s_term = w.server_events.iter().any(|e| e.1 > t_again && matches!(e.2, SEv::Disconnect(a) | SEv::Error(a, _) if a == addr));
+    let got_s = w.server_events.iter().filter(|e| matches!(&e.2, SEv::Receive(a, d) if *a == addr && parse_world_payload(d).map_or(false, |p| p.0 == 3))).count() as u32;
+    let got_c = w.clients[second].events.iter().filter(|e| matches!(&e.2, CEv::Receive(d) if parse_world_payload(d).map_or(false, |p| p.0 == 4))).count() as u32;
+    let detail = format!("first connection of {addr} closed by the {} at t={t_closed} us, closed entry {}, same address connects again {gap_ms} ms later ({} datagrams lost towards the {}): client events {:?}; server events since the close {:?}; echo packets client->server {}/{} delivered, server->client {}/{}", if r.closed_by_client { "client" } else { "server" }, if dropped_by_app { "dropped by the server application in its Disconnect handler" } else { "left to linger" }, r.lost.min(3), if r.lost_to_server { "server" } else { "client" }, c_events, s_events, got_s, sent[0], got_c, sent[1]);
+    if c_connects != 1 || s_connects != 1 {
+        return CaseResult::fail("oracle:c07:reconnect:not_one_connect_per_side", format!("the second handshake yielded {c_connects} Connect on the client and {s_connects} on the server; {detail}"));
+    }
+    if c_term || s_term || got_s != sent[0] || got_c != sent[1] || !w.server_client_active(&addr) {
+        return CaseResult::fail("oracle:c07:reconnect:connection_reset_by_leftovers_of_its_predecessor", format!("the second connection did not survive 26 s of regular exchange on a loss-free link; {detail}"));
+    }
+    CaseResult::ok(true, classes)
 }
 
 pub struct C07;
@@ -197,7 +314,7 @@ impl Check for C07 {
                 // 0 stands for "exactly as many as there are clients"
                 let max_active = if max_active == 0 { n } else { max_active };
                 let max_total = if max_total == 0 { n } else { max_total };
-                Case { seed, server: ServerCfg { max_total, max_active, handshake_errors: (seed >> 5) & 3 != 0, ep }, clients, forges, ticks, dt_us }
+                Case { seed, server: ServerCfg { max_total, max_active, handshake_errors: (seed >> 5) & 3 != 0, ep }, clients, forges, ticks, dt_us, reconnect: if seed % 14 == 5 { Some(Reconnect { closed_by_client: (seed >> 9) & 1 == 0, app_drops_closed_entry: (seed >> 10) % 3 != 0, gap_ms: (seed >> 20) as u32 % 100_000, lost: ((seed >> 40) % 4) as u8, lost_to_server: (seed >> 44) & 1 == 0, latency_us: ((seed >> 48) % 60_000) as u32, step_us: [2_000u32, 10_000, 16_000, 50_000][((seed >> 56) % 4) as usize] }) } else { None } }
             })
             .boxed()
     }
@@ -211,7 +328,7 @@ impl Check for C07 {
     }
 
     fn rule(&self) -> String {
-        "case = World with a real Server and 1-4 (quick) real Clients whose configurations are generated independently (compatible or not; receive allocations and rates of 2^32 and beyond included, which are advertised saturated), each on its own link with per-datagram fates for the handshake frames (delay up to 3 s, drop, duplicate up to 5 s apart, corrupt), starting at generated ticks (simultaneous handshakes), plus late network duplicates of handshake frames that really travelled (never counted as forgeries), clients that call disconnect() right after submitting their last Reliable packet (one in four), clients whose frames are lost for 1-30 s after they connected while a third of the servers time silent peers out after 1.5-4.5 s, and forged handshake / disconnect frames injected at generated moments with spoofed source addresses (a client's address towards the server, the server's address towards a client) carrying random nonces, genuine nonces +-1, the genuine current nonce, or the nonce of an earlier attempt. After Connect each client runs an ordered echo stream through the server, and the server may push a burst of Reliable packets larger than the client's advertised receive allocation. Monitor oracle over wire and events: server Connect(a) only after an ACK from a carrying the nonce of the latest SYN-ACK sent to a was delivered; client Connect only after a SYN-ACK echoing its SYN nonce was delivered; at most one Connect per client and per server-side connection; the server's Connect never precedes the client's, and once a client is connected and frames are delivered promptly the server reports its Connect within three SYN-ACK repeat intervals (as long as its 22 s handshake budget and the client's timeout allow); no server Connect later than the 22 s budget of its handshake (a stale ACK creates nothing, with handshake errors reported or not); first data frame ids equal the advertised nonces; every connection the server reports was completed with the server nonce the client accepted (a connection is never re-created behind a living client's back); refusals carry the error the documented rule demands and the client reports the same error (ServerFull only when the server's limits are below the number of clients: a client is never refused on account of its own pending entry); no Error event on a client that has connected unless it is a Timeout; echo streams arrive in order without gaps for Reliable packets; bytes per second on the wire stay within min(local max_send_rate, peer max_receive_rate); the bytes the server has outstanding towards a client (fragment-rounded, judged from the wire and the acks delivered) never exceed the max_receive_alloc that client advertised. Non-trivial = at least one handshake frame was lost, duplicated, corrupted or forged. Distinct = distinct serialised case.".into()
+        "one case in fourteen is a Reconnect history: one address connects, exchanges a packet each way and closes gracefully (either side asks); the server application drops the lingering entry in its Disconnect handler (two cases in three; the same address then connects again 0-19 s later) or leaves it alone (the address comes back after 21-26 s); up to three datagrams of the second handshake are lost; then both applications exchange a Reliable packet every second for 26 s on a loss-free link: exactly one Connect per side for the second handshake, no terminal event, every packet delivered - nothing the first connection left behind (timers, entries) may reset or replace the second. Otherwise: case = World with a real Server and 1-4 (quick) real Clients whose configurations are generated independently (compatible or not; receive allocations and rates of 2^32 and beyond included, which are advertised saturated), each on its own link with per-datagram fates for the handshake frames (delay up to 3 s, drop, duplicate up to 5 s apart, corrupt), starting at generated ticks (simultaneous handshakes), plus late network duplicates of handshake frames that really travelled (never counted as forgeries), clients that call disconnect() right after submitting their last Reliable packet (one in four), clients whose frames are lost for 1-30 s after they connected while a third of the servers time silent peers out after 1.5-4.5 s, and forged handshake / disconnect frames injected at generated moments with spoofed source addresses (a client's address towards the server, the server's address towards a client) carrying random nonces, genuine nonces +-1, the genuine current nonce, or the nonce of an earlier attempt. After Connect each client runs an ordered echo stream through the server, and the server may push a burst of Reliable packets larger than the client's advertised receive allocation. Monitor oracle over wire and events: server Connect(a) only after an ACK from a carrying the nonce of the latest SYN-ACK sent to a was delivered; client Connect only after a SYN-ACK echoing its SYN nonce was delivered; at most one Connect per client and per server-side connection; the server's Connect never precedes the client's, and once a client is connected and frames are delivered promptly the server reports its Connect within three SYN-ACK repeat intervals (as long as its 22 s handshake budget and the client's timeout allow); no server Connect later than the 22 s budget of its handshake (a stale ACK creates nothing, with handshake errors reported or not); first data frame ids equal the advertised nonces; every connection the server reports was completed with the server nonce the client accepted (a connection is never re-created behind a living client's back); refusals carry the error the documented rule demands and the client reports the same error (ServerFull only when the server's limits are below the number of clients: a client is never refused on account of its own pending entry); no Error event on a client that has connected unless it is a Timeout; echo streams arrive in order without gaps for Reliable packets; bytes per second on the wire stay within min(local max_send_rate, peer max_receive_rate); the bytes the server has outstanding towards a client (fragment-rounded, judged from the wire and the acks delivered) never exceed the max_receive_alloc that client advertised. Non-trivial = at least one handshake frame was lost, duplicated, corrupted or forged. Distinct = distinct serialised case.".into()
     }
 
     fn assumptions(&self) -> Vec<String> {
@@ -226,6 +343,9 @@ impl Check for C07 {
     }
 
     fn run(&self, c: &Case) -> CaseResult {
+        if let Some(r) = &c.reconnect {
+            return run_reconnect(c, r);
+        }
         let mut classes: Vec<&'static str> = Vec::new();
         let mut w = World::new(c.seed, &c.server);
         let mut obs = Obs { client_syn_nonce: HashMap::new(), server_synack: HashMap::new(), seen: 0 };
